@@ -40,7 +40,7 @@ EvalI(e, x) ==
 ExactFam(f) == f.fam \in {"constant", "identity", "indicator"} \/ (f.fam = "monomial" /\ f.pre[2] = 1)
 
 \* data
-Data(seed, d, m) == [i \in 1..d |-> [j \in 1..m |-> ((seed * 5 + i * 3 + j * 7 + i * j * seed) % 5) - 2]]
+Data(seed, d, m) == LET s == seed + SaltValue IN [i \in 1..d |-> [j \in 1..m |-> ((s * 5 + i * 3 + j * 7 + i * j * s) % 5) - 2]]
 Snap(x, j) == [i \in 1..Len(x) |-> x[i][j]]
 
 \* mode catalogues
